@@ -5,6 +5,15 @@ props = [json.loads(l) for l in open('/verif/properties.jsonl')]
 ids = [p['id'] for p in props]
 
 CLAIMS = {
+ "C08": dict(cat="other", ref="DESIGN.md section 4, C08",
+   text="Pump arm constraints (one blocking select per iteration with the receive arm always on the send-side channel itself; enq exactly once from a per-iteration fresh cell; send arm sends head on emit(...) and deqs once), emit/head/enq/deq conditional-store summaries, flush loops, close typestate. Known findings: D5 (sender close => double close, backlog dropped) and D6 (cancel loses buffered sends). FIFO/lossless/duplicate-free follows on paper from single pump + queue discipline; interleavings are not enumerated.",
+   note="assumes sync.Pool hands out unshared nodes and never blocks",
+   tech="static analysis: path constraints on the pump's select arms with inlined helper summaries, typestate of closed channels"),
+ "C16": dict(cat="other", ref="DESIGN.md section 4, C16",
+   text="Bracketing and error-stop of every Apply on all paths, children loop, Root/callback pairing, TypeOf type arguments recorded by the constructors, what each combinator appends and to which code, the append and unit disciplines (refuse when closed, innermost open child first, exactly one append / the root never closes). The tree shape for all programs follows on paper from the two disciplines.",
+   note="recursion over run-time trees is not decided",
+   tech="static analysis: path constraints with branch polarities, type-argument checks on go/types"),
+
  "C04": dict(cat="other", ref="DESIGN.md section 4, C04",
    text="Every composite optic's ordered event list is compared with its defining equation (join, Getter, Setter, BiMap, BiMapS/B/I/F through inlined helpers, lensM, iso, morphism with its nil test, shapeN Put/Get positional over N field lenses, ForShapeN, constructors). Lawfulness of the compositions follows on paper when the components are lawful; user conversions being inverse is a premise.",
    note="trusted: go/types, go/ssa, path engine; no composite performs a store of its own except lensM (census from C01)",
